@@ -284,7 +284,7 @@ impl<'a> Replayer<'a> {
     fn ensure_open(&mut self, c: u8) -> Result<(), Fail> {
         if self.conns[c as usize].is_none() {
             self.gens[c as usize] += 1;
-            let ws = WsConn::connect(self.addr(c)).ok_or(("ws/connect-failed".to_string(), "could not connect".to_string()))?;
+            let ws = WsConn::connect_patiently(self.addr(c)).ok_or(("ws/connect-failed".to_string(), "could not connect".to_string()))?;
             self.conns[c as usize] = Some(Conn { ws, gen: self.gens[c as usize] });
         }
         Ok(())
@@ -692,7 +692,7 @@ pub fn replay_opt(trk: &Tracker, p: &Params, path: &[WEv], ns: u64, pl: &Placeme
     if fresh {
         for c in [0usize, 2] {
             let addr = SocketAddr::new(IpAddr::V4(Ipv4Addr::LOCALHOST), trk.child.port + (pl.conn_worker[c] % trk.socket_workers) as u16);
-            match WsConn::connect(addr) {
+            match WsConn::connect_patiently(addr) {
                 Some(ws) => {
                     gens[c] = 1;
                     pre[c] = Some(Conn { ws, gen: 1 });
@@ -701,7 +701,7 @@ pub fn replay_opt(trk: &Tracker, p: &Params, path: &[WEv], ns: u64, pl: &Placeme
             }
         }
     }
-    let monitor = match WsConn::connect(SocketAddr::new(IpAddr::V4(Ipv4Addr::LOCALHOST), trk.child.port)) {
+    let monitor = match WsConn::connect_patiently(SocketAddr::new(IpAddr::V4(Ipv4Addr::LOCALHOST), trk.child.port)) {
         Some(m) => m,
         None => return (0, Some(("ws/connect-failed".into(), "monitor connection failed".into()))),
     };
@@ -847,7 +847,139 @@ fn burst_phase(th: bool, configs: &[(u8, u8)]) -> (Vec<(String, String, Value)>,
     (out, burst_jobs.len() as u64)
 }
 
+/// Send one text message in frames of at most 12000 bytes (websocket_max_frame_size is 16 KiB by default)
+pub fn send_fragmented(c: &mut WsConn, text: &str) -> bool {
+    use tungstenite::protocol::frame::coding::{Data, OpCode};
+    use tungstenite::protocol::frame::Frame;
+    let bytes = text.as_bytes();
+    let chunks: Vec<&[u8]> = bytes.chunks(12_000).collect();
+    let mut ok = true;
+    for (ci, ch) in chunks.iter().enumerate() {
+        let op = if ci == 0 { OpCode::Data(Data::Text) } else { OpCode::Data(Data::Continue) };
+        ok &= c.ws.write(tungstenite::Message::Frame(Frame::message(ch.to_vec(), op, ci + 1 == chunks.len()))).is_ok();
+    }
+    ok && c.ws.flush().is_ok()
+}
+
+/// Large messages: forwarded offers and answers of every size class up to the message size limit, and scrape replies for
+/// up to max_scrape_torrents torrents whose identifiers take six JSON bytes per character. Every one must be delivered
+/// whole and leave the connections usable. Returns (cases, violations).
+pub fn sizes_phase(sw: u8, wm: u8, thorough: bool) -> (u64, Vec<(String, String, Value)>) {
+    let trk = start_tracker(sw, wm);
+    let mut out: Vec<(String, String, Value)> = Vec::new();
+    let mut cases = 0u64;
+    let addr = |w: u8| SocketAddr::new(IpAddr::V4(Ipv4Addr::LOCALHOST), trk.child.port + (w % trk.socket_workers) as u16);
+    // SDP sizes: around every multiple of 8 KiB of the forwarded message (its envelope is ~240 bytes), a dense band around
+    // 24 KiB (three times the default write buffer), and the largest announce that fits websocket_max_message_size
+    let mut sizes: BTreeSet<usize> = BTreeSet::new();
+    for j in 1..=7usize {
+        for d in [-300i64, -241, -236, -1, 0, 1, 64] {
+            sizes.insert((j as i64 * 8192 + d - 241).max(1) as usize);
+        }
+    }
+    let step = if thorough { 1 } else { 8 };
+    for l in (24_200..=24_700usize).step_by(step) {
+        sizes.insert(l - 241);
+    }
+    for s in [1usize, 100, 1000, 60_000, 64_000, 65_000, 65_100] {
+        sizes.insert(s);
+    }
+    for (i, size) in sizes.iter().enumerate() {
+        let ns = NS.fetch_add(1, Ordering::Relaxed);
+        let pl = Placement { conn_worker: vec![0, 1, 0], torrent_worker: vec![i as u8 % wm, 0] };
+        let h = id20(&hash_for(ns, 0, &pl, wm));
+        let (Some(mut a), Some(mut b)) = (WsConn::connect_patiently(addr(1)), WsConn::connect_patiently(addr(0))) else {
+            out.push(("ws/connect-failed".into(), "connect failed".into(), json!({"sizes": true})));
+            break;
+        };
+        let d = json!({"sizes": {"sdp_bytes": size}, "socket_workers": sw, "swarm_workers": wm});
+        let m = json!({"action": "announce", "info_hash": h, "peer_id": id20(&pid_bytes(ns, 2)), "numwant": 1, "left": 1, "offers": [{"offer_id": id20(&oid_bytes(1)), "offer": {"type": "offer", "sdp": "s".repeat(*size)}}]}).to_string();
+        if m.len() > 64 * 1024 {
+            continue; // beyond websocket_max_message_size: not an accepted request
+        }
+        cases += 1;
+        a.send_text(json!({"action": "announce", "info_hash": h, "peer_id": id20(&pid_bytes(ns, 1)), "numwant": 0, "left": 1, "event": "started"}).to_string());
+        if a.recv_text(5000).is_none() {
+            out.push(("ws/announce-unanswered".into(), "plain announce not answered".into(), d));
+            continue;
+        }
+        send_fragmented(&mut b, &m);
+        let b_reply = b.recv_text(5000);
+        let a_got = a.recv_text(5000);
+        let offer_ok = a_got.as_ref().map(|t| t.contains("\"offer_id\"") && t.matches('s').count() >= *size).unwrap_or(false);
+        a.send_text(json!({"action": "scrape", "info_hash": h}).to_string());
+        let a_alive = a.recv_text(5000).is_some();
+        if b_reply.is_none() || !offer_ok || !a_alive {
+            out.push(("ws/large-offer-not-delivered".into(), format!("announce with one offer of {} SDP bytes ({} bytes in all, accepted): sender got its reply: {}, the offer reached the other member whole: {}, the receiver's connection is still usable: {} [socket_workers={} swarm_workers={}]", size, m.len(), b_reply.is_some(), offer_ok, a_alive, sw, wm), d.clone()));
+            continue;
+        }
+        // the answer travels the other way
+        let ans = json!({"action": "announce", "info_hash": h, "peer_id": id20(&pid_bytes(ns, 1)), "numwant": 0, "left": 1, "answer": {"type": "answer", "sdp": "t".repeat(*size)}, "to_peer_id": id20(&pid_bytes(ns, 2)), "offer_id": id20(&oid_bytes(1))}).to_string();
+        if ans.len() > 64 * 1024 {
+            continue;
+        }
+        send_fragmented(&mut a, &ans);
+        let mut answer_ok = false;
+        for _ in 0..2 {
+            if let Some(t) = b.recv_text(5000) {
+                if t.contains("\"answer\"") && t.matches('t').count() >= *size {
+                    answer_ok = true;
+                    break;
+                }
+            }
+        }
+        b.send_text(json!({"action": "scrape", "info_hash": h}).to_string());
+        let b_alive = b.recv_text(5000).is_some();
+        if !answer_ok || !b_alive {
+            out.push(("ws/large-answer-not-delivered".into(), format!("answer of {} SDP bytes to a forwarded offer: reached the offering peer whole: {}, that peer's connection is still usable: {} [socket_workers={} swarm_workers={}]", size, answer_ok, b_alive, sw, wm), d));
+        }
+    }
+    // scrape replies
+    let mut ns_list: Vec<usize> = vec![1, 100, 140, 200, 254, 255, 256, 300];
+    ns_list.extend(150..=165);
+    for n in ns_list {
+        cases += 1;
+        let Some(mut c) = WsConn::connect_patiently(addr(0)) else { break };
+        let tag = NS.fetch_add(1, Ordering::Relaxed);
+        let mut hashes = Vec::new();
+        for t in 0..n {
+            // control characters: six JSON bytes each; first byte spreads the torrents over the swarm workers
+            let mut h = [1u8; 20];
+            h[0] = (t % wm as usize) as u8;
+            h[1] = (t % 31) as u8 + 1;
+            h[2] = (t / 31) as u8 + 1;
+            h[3..11].copy_from_slice(&tag.to_be_bytes().map(|x| x % 32));
+            hashes.push(id20(&h));
+            c.send_text(json!({"action": "announce", "info_hash": id20(&h), "peer_id": id20(&pid_bytes(tag, 1)), "numwant": 0, "left": 1, "event": "started"}).to_string());
+            let _ = c.recv_text(5000);
+        }
+        let req = json!({"action": "scrape", "info_hash": hashes}).to_string();
+        send_fragmented(&mut c, &req);
+        let r = c.recv_text(5000);
+        let files = r.as_ref().and_then(|t| serde_json::from_str::<Value>(t).ok()).and_then(|v| v.get("files").and_then(|f| f.as_object().map(|o| o.len())));
+        c.send_text(json!({"action": "scrape", "info_hash": id20(&[9u8; 20])}).to_string());
+        let alive = c.recv_text(5000).is_some();
+        // beyond max_scrape_torrents (255, applied by each swarm worker) the properties define no count: any cut between the
+        // limit and the request is accepted there
+        let count_ok = match files {
+            Some(f) if n <= 255 => f == n,
+            Some(f) => (255..=n).contains(&f),
+            None => false,
+        };
+        if !count_ok || !alive {
+            out.push(("ws/large-scrape-unanswered".into(), format!("scrape of {} torrents that all have a peer (request {} bytes, identifiers of control characters): reply lists {:?} torrents ({} bytes), expected {}{}; connection usable afterwards: {} [socket_workers={} swarm_workers={}]", n, req.len(), files, r.map(|t| t.len()).unwrap_or(0), n.min(255), if n > 255 { " or more" } else { "" }, alive, sw, wm), json!({"sizes": {"scrape_torrents": n}, "socket_workers": sw, "swarm_workers": wm})));
+        }
+    }
+    (cases, out)
+}
+
 pub fn main(args: &Args) -> ! {
+    if std::env::var("AQV_C17_SIZE").is_ok() {
+        let (n, v) = sizes_phase(2, 2, args.tier.thorough());
+        println!("cases {} -> {:#?}", n, v.iter().map(|x| (&x.0, &x.1)).collect::<Vec<_>>());
+        std::process::exit(0);
+    }
+
     if std::env::var("AQV_C17_BURST_ONLY").is_ok() {
         let (v, n) = burst_phase(args.tier.thorough(), &[(1, 1), (1, 2), (2, 1), (2, 2), (3, 3)]);
         println!("bursts {} -> {:#?}", n, v.iter().map(|x| (&x.0, &x.1)).collect::<Vec<_>>());
@@ -858,7 +990,7 @@ pub fn main(args: &Args) -> ! {
     let mut run = Run::new(args, "model_checking");
     let th = args.tier.thorough();
     run.set("engine", "netmc: breadth-first enumeration of event sequences over an abstract reference model (announce with own / another connection's peer id, offers, answers, scrapes merged over swarm workers, orderly and abrupt close); every explored transition is replayed with its BFS-tree path in a fresh namespace against aquatic_ws::run in child processes; after every event every connection (plus a monitor connection) is fenced with a scrape covering all swarm workers and the messages each connection received are compared with a reference tracker that follows the implementation's (random) choice of offer receivers after checking its legality");
-    run.assume("executor scheduling inside the tracker is not controlled; paths issue one request at a time, pipelining is covered by the burst phase (1..=16, 17, 24, 64, 200 requests in one flush)");
+    run.assume("executor scheduling inside the tracker is not controlled; paths issue one request at a time, pipelining is covered by the burst phase (1..=16, 17, 24, 64, 200 requests in one flush), message sizes by the large-message phase");
     run.assume("path enumeration deduplicates on an abstract state that ignores pending offers");
     let p_main = Params { conns: 3, torrents: 2, offers: vec![0, 3], kinds: vec![K::Leech, K::Seed, K::Stop], foreign: true, answers: true, scrapes: vec![1, 2] };
     let depth = if th { 3 } else { 2 };
@@ -872,6 +1004,15 @@ pub fn main(args: &Args) -> ! {
     if let Some(rp) = &args.replay {
         let r = load_replay(rp);
         let d = &r["detail"];
+        if d.get("sizes").is_some() {
+            let (sw, wm) = (d["socket_workers"].as_u64().unwrap_or(1) as u8, d["swarm_workers"].as_u64().unwrap_or(1) as u8);
+            let (_, v) = sizes_phase(sw, wm, false);
+            for (sig, what, d) in v {
+                run.violation(sig, what, d);
+            }
+            run.set("states", 1);
+            run.finish();
+        }
         if let Some(b) = d.get("burst") {
             let (sw, wm) = (d["socket_workers"].as_u64().unwrap_or(1) as u8, d["swarm_workers"].as_u64().unwrap_or(1) as u8);
             let trk = start_tracker(sw, wm);
@@ -916,13 +1057,19 @@ pub fn main(args: &Args) -> ! {
                 // a tracker that stops answering altogether is reported at once
                 let failing = AtomicU64::new(0);
                 let stopped = AtomicU64::new(0);
+                // many failing paths mean a defect that the shortest of them shows: the rest is skipped (every failure costs
+                // seconds of timeouts), and at most a dozen are replayed on their own afterwards
+                let failed_total = AtomicU64::new(0);
                 let res = par_map(&work, 5, |(path, pl)| {
-                    if stopped.load(Ordering::Relaxed) != 0 {
+                    if stopped.load(Ordering::Relaxed) != 0 || failed_total.load(Ordering::Relaxed) >= 60 {
                         return ((0, None), (*path).clone(), pl.clone());
                     }
                     let ns = NS.fetch_add(1, Ordering::Relaxed);
                     let params = Params { conns: 3, torrents: 2, offers: p_main.offers.clone(), kinds: p_main.kinds.clone(), foreign: true, answers: true, scrapes: p_main.scrapes.clone() };
                     let r = replay(&trk, &params, path, ns, pl);
+                    if r.1.as_ref().map(|(sig, _)| sig != "ws/second-peer-id/error-reply-lost").unwrap_or(false) {
+                        failed_total.fetch_add(1, Ordering::Relaxed);
+                    }
                     match &r.1 {
                         Some((sig, _)) if sig != "ws/second-peer-id/error-reply-lost" => {
                             if failing.fetch_add(1, Ordering::Relaxed) >= 8 && stopped.load(Ordering::Relaxed) == 0 {
@@ -950,10 +1097,20 @@ pub fn main(args: &Args) -> ! {
                 if stopped.load(Ordering::Relaxed) != 0 {
                     return;
                 }
+                // shortest failing paths first
+                let mut res = res;
+                res.sort_by_key(|r| if (r.0).1.is_some() { r.1.len() } else { usize::MAX });
+                let mut reruns = 0;
                 for ((req, v), path, pl) in res {
                     total_requests.fetch_add(req, Ordering::Relaxed);
                     total_paths.fetch_add(1, Ordering::Relaxed);
                     if let Some((sig, what)) = v {
+                        if sig != "ws/second-peer-id/error-reply-lost" {
+                            reruns += 1;
+                            if reruns > 12 {
+                                continue;
+                            }
+                        }
                         if sig == "ws/second-peer-id/error-reply-lost" {
                             // not timing related (the connection is closed without the message every time)
                             viols.lock().unwrap().push((sig, what, json!({"path": path, "socket_workers": sw, "swarm_workers": wm, "conn_worker": pl.conn_worker, "torrent_worker": pl.torrent_worker})));
@@ -1015,10 +1172,30 @@ pub fn main(args: &Args) -> ! {
     // ---- pipelined bursts: n requests in one flush on one connection
     let (burst_viols, bursts) = burst_phase(th, &configs);
     viols.lock().unwrap().extend(burst_viols);
+    // ---- large messages (forwarded offers / answers up to the message size limit, scrape replies up to the scrape limit)
+    let size_cfgs: Vec<(u8, u8)> = if th { vec![(1, 1), (2, 2), (3, 3), (1, 3), (3, 1)] } else { vec![(1, 1), (2, 2)] };
+    let mut size_cases = 0u64;
+    for &(sw, wm) in &size_cfgs {
+        let (n, v) = sizes_phase(sw, wm, th);
+        size_cases += n;
+        let mut seen = BTreeSet::new();
+        for x in v {
+            // the smallest failing size of each kind per configuration
+            if seen.insert(x.0.clone()) {
+                viols.lock().unwrap().push(x);
+            }
+        }
+    }
+    run.set("large_message_cases", size_cases);
     run.set("pipelined_bursts", bursts);
     let mut vs = viols.into_inner().unwrap();
     vs.sort_by_key(|v| v.2["path"].as_array().map(|a| a.len()).unwrap_or(99));
     for (sig, what, d) in vs {
+        if sig == "ws/connect-failed" {
+            // not being able to connect (six attempts over 30 s) is not an observation of the tracker's replies;
+            // a tracker that stops serving altogether is reported by the stopped-answering probe with its thread states
+            machinery_failure(&format!("could not connect to a tracker: {} ({})", what, d));
+        }
         run.violation(sig, what, d);
     }
     run.set("states", (states + states_sig) as u64);
